@@ -387,3 +387,19 @@ Theorem C05_map2_nonvacuous :
     m2valspec_ok H K s = true /\ m2valspec_ok H K s' = true.
 Proof. exact map2_example_closed. Qed.
 Print Assumptions C05_map2_nonvacuous.
+
+(** Map<K, Orswot> whose keys are never removed, per-actor delivery with duplicates AND merges: the member sentence and the
+    value-level specification (proofs/MapOrswotNK.v) *)
+From Crdt Require Import model.Orswot model.Map spec.System spec.OrswotSpec spec.OrswotSystem spec.MapSpec spec.MapSystem spec.MapOrswotSpec proofs.MapOrswotNK proofs.MapOrswotNKCor.
+Theorem C05_mapor_nk_member_sentence (H : list (oprec (mop oop))) :
+  mohist_ok_nk H -> forall (s : cmap orswot) (K : gset nat) (k m : N), moreach_nk H s K ->
+  (m ∈ dom (mo_state_entries s k) <->
+   exists d ms, MUp d k (OAdd d ms) ∈ known_ops H K /\ m ∈ ms /\
+     ~ exists d' c ms', MUp d' k (ORm c ms') ∈ known_ops H K /\ m ∈ ms' /\ dcounter d <= vget c (dactor d)).
+Proof. exact (mapor_member_iff_nk H). Qed.
+Print Assumptions C05_mapor_nk_member_sentence.
+
+Theorem C05_mapor_nk_ok (H : list (oprec (mop oop))) :
+  mohist_ok_nk H -> forall (s : cmap orswot) (K : gset nat), moreach_nk H s K -> mapor_nk_ok H K s = true.
+Proof. exact (mapor_nk_ok_reach H). Qed.
+Print Assumptions C05_mapor_nk_ok.
